@@ -44,7 +44,7 @@ func TestVerifRootClose(t *testing.T) {
 	viol := func(s string) { fmt.Fprintf(w, "V %s\n", s) }
 	loader := func(ctx context.Context, key int) (Loaded[int], error) { return Loaded[int]{Value: key, Cost: 1}, nil }
 	settle := func(base int) int {
-		deadline := time.Now().Add(3 * time.Second)
+		deadline := time.Now().Add(10 * time.Second)
 		for {
 			n := vrootGoroutines()
 			if n <= base || time.Now().After(deadline) {
